@@ -213,23 +213,55 @@ Proof.
 Qed.
 End Link.
 
-(* the completeness half under the hypothesis of c28_all_written_partial *)
-Lemma c28_oracle_complete_partial_lemma : forall m ps s1 s2,
-  NoDup (concat (map (must_write m) ps)) ->
-  quiesced (run s1 (init m ps)) = true ->
-  stopper (run s2 (run s1 (init m ps))) = SDone ->
-  file_complete m ps (observe (run s2 (run s1 (init m ps)))) = true.
+(* the completeness half: stop() called after all producers are done, stop() has returned, no
+   push fell into the window, no program submits the marker *)
+Lemma c28_oracle_complete_lemma : forall m ps s1 s2,
+  NoDup (concat (map (must_write m) ps)) -> no_marker m ps = true ->
+  stopper (run s1 (init m ps)) = SIdle -> all_done (run s1 (init m ps)) = true ->
+  stopper (run s2 (step (run s1 (init m ps)) Stop)) = SDone ->
+  win (run s2 (step (run s1 (init m ps)) Stop)) = [] ->
+  file_complete m ps (observe (run s2 (step (run s1 (init m ps)) Stop))) = true.
 Proof.
-  intros m ps s1 s2 Hd Hq Hs.
-  assert (E : run s2 (run s1 (init m ps)) = run (s1 ++ s2) (init m ps)) by (unfold run; rewrite fold_left_app; reflexivity).
+  intros m ps s1 s2 Hd NM Hidle Hdone Hs Hw.
+  assert (E : run s2 (step (run s1 (init m ps)) Stop) = run (s1 ++ Stop :: s2) (init m ps))
+    by (unfold run; rewrite fold_left_app; reflexivity).
   unfold file_complete. cbn [observe o_file o_stopped]. rewrite Hs. cbn [andb].
-  rewrite E. destruct (link_strike m ps (s1 ++ s2) Hd) as [R [R1 [R2 R3]]]. rewrite R1.
+  rewrite E. destruct (link_strike m ps (s1 ++ Stop :: s2) Hd) as [R [R1 [R2 R3]]]. rewrite R1.
   apply forallb_forall. intros l Hl. apply In_nth with (d := []) in Hl. destruct Hl as [i [Hi <-]].
   rewrite R2 in Hi. destruct (nth_error ps i) as [p|] eqn:Ep; [|apply nth_error_None in Ep; lia].
   specialize (R3 i). rewrite nth_must_write, Ep in R3.
-  pose proof (c28_all_written_partial_lemma m ps s1 s2 Hq Hs i p Ep) as A. rewrite E in A.
+  pose proof (c28_all_written_done_lemma m ps s1 s2 NM Hidle Hdone Hs Hw i p Ep) as A. rewrite E in A.
   rewrite A, <- (must_write_elems m i p 0) in R3.
   destruct (nth i R []) as [|x xs]; [reflexivity|]. exfalso.
   assert (L : length (must_write m p) = length (must_write m p ++ x :: xs)) by (rewrite <- R3; reflexivity).
   rewrite app_length in L. cbn in L. lia.
+Qed.
+
+(* the whole oracle *)
+Lemma c28_oracle_ok_lemma : forall m ps s1 s2,
+  NoDup (concat (map (must_write m) ps)) -> no_marker m ps = true ->
+  stopper (run s1 (init m ps)) = SIdle -> all_done (run s1 (init m ps)) = true ->
+  stopper (run s2 (step (run s1 (init m ps)) Stop)) = SDone ->
+  win (run s2 (step (run s1 (init m ps)) Stop)) = [] ->
+  c28_ok m ps (observe (run s2 (step (run s1 (init m ps)) Stop))) = true.
+Proof.
+  intros m ps s1 s2 Hd NM Hidle Hdone Hs Hw. unfold c28_ok.
+  rewrite (c28_oracle_complete_lemma m ps s1 s2 Hd NM Hidle Hdone Hs Hw).
+  assert (E : run s2 (step (run s1 (init m ps)) Stop) = run (s1 ++ Stop :: s2) (init m ps))
+    by (unfold run; rewrite fold_left_app; reflexivity).
+  rewrite E. rewrite (c28_oracle_sound_lemma m ps (s1 ++ Stop :: s2) Hd). cbn [andb].
+  apply c28_return_ok_lemma. rewrite <- E.
+  (* producers that are done stay done *)
+  assert (G : forall s c, all_done c = true -> all_done (run s c) = true).
+  { induction s as [|t s IH]; intros c Hc; cbn; [exact Hc|]. apply IH.
+    destruct t as [i| |]; cbn [step].
+    - unfold step_prod. destruct (nth_error (prods c) i) as [st|] eqn:Est; [|exact Hc].
+      assert (todo st = []).
+      { unfold all_done in Hc. rewrite forallb_forall in Hc. specialize (Hc st (nth_error_In _ _ Est)).
+        destruct (todo st); [reflexivity|discriminate]. }
+      rewrite H. exact Hc.
+    - unfold step_cons. destruct (cons c); [destruct (queue c) as [|x q']; [exact Hc|destruct (q_text x); exact Hc]
+                                           |destruct (stopping c); exact Hc|exact Hc|exact Hc].
+    - unfold step_stop. destruct (stopper c); [exact Hc|exact Hc|destruct (cons c); exact Hc|exact Hc]. }
+  apply G. cbn [step]. unfold step_stop. rewrite Hidle. exact Hdone.
 Qed.
